@@ -14,6 +14,7 @@ NEGS = {"NEG_stop_ForcedReach.cfg": ["NEG_ForcedNeverCompletesWithLive"],       
         "NEG_stop_TermIsForced.cfg": ["C06_SignalKinds"],
         "NEG_stop_AwaitsLastWorkerOnly.cfg": ["C06_GracefulWaits"],
         "NEG_stop_WakeAcceptFirst.cfg": ["C06_GracefulLetsFinish"],
+        "NEG_stop_MidPollIgnoresStop.cfg": ["C06_GracefulLetsFinish"],   # defect F9: the closed queue ends a worker in mid-poll
         "NEG_stop_ForcedReachBusy.cfg": ["NEG_ForcedNeverCompletesWithBusy"],  # reachability: forced completes while a worker thread is blocked      # defect F8: accept thread told to stop before the workers
         "NEG_stop_SecondStopHangs.cfg": ["temporal"]}
 
